@@ -19,7 +19,7 @@ def run(ctx):
     # component level: the leader's block production (Producer.tla) under every interleaving of transactions
     # (boundary sizes, oversized), ticks and ParentReady (same / other parent), replayed into the real BlockProducer
     from .. import producer as PR
-    PR.run_model(ctx, "producer", relevant=PR.relevant_c10)
+    PR.run_model(ctx, "producer", relevant=PR.relevant_c10, race=True)
     ctx.assumptions += ["under hostile traffic only finalization (not the one-round fast path) is demanded: the block "
                         "producer measures slice time with std::time::Instant, which stands still under the paused clock, "
                         "so a transaction flood stretches block production in virtual time (a simulation artefact)",
